@@ -77,6 +77,17 @@ def cases(tier, seed):
         obj = {"fam": "cones", "a": [a1, a2], "c": [0.0, c2], "K": [k1, L]}
         out.append({"N": N, "lower": lo, "upper": hi, "box": kind, "obj": {"fam": "scaledby", "base": obj, "scale": 1.0}, "r": r, "eps": eps,
                     "iters": 3000, "m": m, "refine": False, "cls": "hidden"})
+        if i % 3 == 0:
+            # the accuracy stop is reached by a RESUMED search: Solve under a small limit, the user raises itersLimit (or steps on with
+            # DoGlobalIteration), Solve again.  "every iteration limit large enough that the accuracy stop is reached" - however it is reached
+            k1 = int(rng.integers(8, 40))
+            out[-1]["iters"] = k1
+            out[-1]["final_limit"] = 3000
+            if i % 2 == 0:
+                out[-1]["pattern"] = [["solve"], ["set", "itersLimit", 3000], ["solve"]]
+            else:
+                out[-1]["pattern"] = [["solve"], ["iter", int(rng.integers(5, 60))], ["set", "itersLimit", 3000], ["solve"]]
+            out[-1]["resumed"] = True
     # 'multiscale': eps far below 2^-m; a narrow steep notch at a dyadic point is found early and refined (its slope, visible only
     # on intervals much shorter than 2^-m, drives M up), while a slightly deeper basin of smaller slope hides between coarse trials
     nm = 48 if tier == "quick" else 600
@@ -129,7 +140,8 @@ def upper_estimate_min(G, N, rng):
 def run_case(scn):
     N, r, eps, m = scn["N"], scn["r"], scn["eps"], scn["m"]
     G, info = build(scn)
-    prob = record.RecordingProblem(N, scn["lower"], scn["upper"], G, cap=scn["iters"] + 8)
+    limit = scn.get("final_limit", scn["iters"])
+    prob = record.RecordingProblem(N, scn["lower"], scn["upper"], G, cap=limit + 70)
     t = record.run_solver(scn, listener=True, problem=prob)
     if t.fp_exhausted:
         return {"violations": [], "obs": {"fp_domain_exhausted": 1}, "skip": "fp-domain-exhausted"}
@@ -146,7 +158,7 @@ def run_case(scn):
     lens = [L for L in a["lengths"][1:] if L is not None]
     # "Solve stops because the requested accuracy was reached": it returned before the budget was exhausted
     # (or exactly at the budget with an interval shorter than eps subdivided)
-    stopped_by_accuracy = T >= 2 and (T < scn["iters"] or (bool(lens) and min(lens) < eps))
+    stopped_by_accuracy = T >= 2 and (T < limit or (bool(lens) and min(lens) < eps))
     if not stopped_by_accuracy:
         obs["not_accuracy_stop"] = 1
         return {"violations": viol, "obs": obs, "skip": "budget-or-other-stop"}
@@ -177,6 +189,8 @@ def run_case(scn):
     ratio = gap / bound if bound > 0 else (0.0 if gap <= 0 else float("inf"))
     obs["qualifying"] = 1
     obs["qualifying_" + scn["cls"]] = 1
+    if scn.get("resumed"):
+        obs["qualifying_resumed"] = 1
     obs["qualifying_N%d" % N] = 1
     obs["max_gap_over_bound"] = max(0.0, ratio)
     obs["trials"] = T
@@ -200,6 +214,6 @@ def finalize(obs, tier, stats):
     miss = [n for n in dims if not obs.get("qualifying_N%d" % n)]
     if miss:
         return "no qualifying run in dimension(s) %s" % miss, {}
-    if not obs.get("qualifying_threshold") or not obs.get("qualifying_flat") or not obs.get("qualifying_hidden") or not obs.get("qualifying_multiscale"):
+    if not obs.get("qualifying_threshold") or not obs.get("qualifying_flat") or not obs.get("qualifying_hidden") or not obs.get("qualifying_multiscale") or not obs.get("qualifying_resumed"):
         return "a scenario class never qualified", {}
     return None, {"qualifying_runs": q, "largest_gap_over_bound": obs.get("max_gap_over_bound")}
